@@ -293,6 +293,8 @@ func fixedScripts() []script {
 		mk(op{K: "P", T: ""}, fsText(","), op{K: "R", T: "a,b\nc,d\r\ne"}, V),                                        // RS="" newline rule
 		mk(op{K: "U", T: "c"}, op{K: "R", T: "a b c"}, op{K: "S", I: c(2), T: "x,\"y\""}, V, op{K: "S", I: c(5), T: " lead"}, V), // CSV output mode
 		mk(fsText(""), op{K: "R", T: "aéb"}, V),                                                                       // empty FS
+		mk(op{K: "R", T: "a b c"}, op{K: "S", I: c(1000000), T: "x"}, op{K: "N"}),                                     // the largest index
+		mk(op{K: "R", T: "a b c"}, op{K: "W", V: 1000000, VS: "1000000"}, op{K: "N"}, op{K: "G", I: c(-1000000)}),      // the largest NF
 	}
 }
 
